@@ -273,6 +273,19 @@ fn diff_all(want: &Sem, got: &Sem) -> Vec<String> {
     out
 }
 
+/// first differing line of the two normalised listings (detail text only)
+fn first_dump_diff(w: &Sem, g: &Sem) -> String {
+    let (a, b) = (refclass::dump::dump(w), refclass::dump::dump(g));
+    let (mut la, mut lb) = (a.lines(), b.lines());
+    loop {
+        match (la.next(), lb.next()) {
+            (Some(x), Some(y)) if x == y => continue,
+            (None, None) => return "listings equal".into(),
+            (x, y) => return format!("expected line {:?}, got {:?}", x.unwrap_or("<end>").trim(), y.unwrap_or("<end>").trim()),
+        }
+    }
+}
+
 fn sort_inner(s: &mut Sem) {
     if let Some(v) = &mut s.inner_classes {
         v.sort_by(|a, b| (&a.inner, &a.outer, &a.inner_name, a.access).cmp(&(&b.inner, &b.outer, &b.inner_name, b.access)));
@@ -328,8 +341,10 @@ fn judge_jar(j: &Judge, real: &BTreeMap<String, Obs>, reference: &RefNested, inp
                         let mut w = (**w).clone();
                         sort_inner(&mut w);
                         sort_inner(&mut g);
-                        for p in diff_all(&w, &g) {
-                            out.push(Violation::new(j.tier, j.class, format!("{stage}.class.{p}"), format!("{name}: first difference of this kind at {p}")));
+                        let excerpt = first_dump_diff(&w, &g);
+                        for (k, p) in diff_all(&w, &g).into_iter().enumerate() {
+                            let more = if k == 0 { format!("; {excerpt}") } else { String::new() };
+                            out.push(Violation::new(j.tier, j.class, format!("{stage}.class.{p}"), format!("{name}: first difference of this kind at {p}{more}")));
                         }
                     }
                 }
@@ -422,8 +437,8 @@ impl Engine for C14 {
     }
     fn runs(&self, tier: Tier) -> u64 {
         match tier {
-            Tier::Quick => 24_000,
-            Tier::Thorough => 400_000,
+            Tier::Quick => 30_000,
+            Tier::Thorough => 1_500_000,
         }
     }
     fn gen(&self, rng: &mut Rng, tier: Tier, _run: u64) -> Plan {
